@@ -289,6 +289,8 @@ func run(p *kernel.Plan) (res *kernel.Result) {
 				q = pend{name: "connect", tid: r.TransactionID}
 			case *rtmp.CallPacket:
 				q = pend{name: "createStream", tid: r.TransactionID}
+			case *rtmp.CreateStreamPacket: // an implementation may hand createStream over as its dedicated type
+				q = pend{name: "createStream", tid: r.TransactionID}
 			default:
 				continue
 			}
